@@ -1,7 +1,7 @@
 /-
   C14 — every step of every thread preserves the invariant.
 -/
-import PyIpmi.Lemmas.Threads
+import PyIpmi.Lemmas.ThreadsTear
 namespace PyIpmi.Threads
 open PyIpmi.Spec.Threads
 
@@ -10,10 +10,75 @@ theorem seqNext_succ (a : Nat) : seqNext a (a + 1) = true := by
 
 theorem seqNext_wrap : seqNext 0xffffffff 1 = true := by decide
 
-theorem stepThr_inv {s s' : Sys} {t : Nat} {th : Thr} (hi : Inv s) (hget : s.thr[t]? = some th)
+theorem inLock_nextPc (th : Thr) (ok : Bool) : inLock (nextPc th ok) = false := by
+  simp only [nextPc]
+  cases th.kind <;> simp only [] <;> (repeat' split) <;> rfl
+
+/-- A step of a thread that is outside the lock block and stays there, touching nothing the wire
+invariant speaks about. -/
+theorem inv_outside {s s' : Sys} {t : Nat} {th th' : Thr} (hi : Inv s) (hget : s.thr[t]? = some th)
+    (hlock : s'.lock = s.lock) (hwire : s'.wire = s.wire) (hq : s'.q = s.q) (hsock : s'.sock = s.sock)
+    (hserial : s'.serial = s.serial) (hthr : s'.thr = s.thr.set t th') (hss : s'.sessSeq = s.sessSeq)
+    (hpc : inLock th.pc = false) (hpc' : inLock th'.pc = false) (hres : th'.results = th.results) : Inv s' := by
+  have hown := hi.owner t th hget
+  rw [hpc] at hown
+  have hnl : s.lock ≠ some t := fun h => by simp [h] at hown
+  exact inv_local hi hget hlock hwire hq hsock hserial hthr (by rw [hpc, hpc']) hres
+    (fun hl => absurd hl hnl) (fun _ => hss)
+
+theorem stepThr_inv {s s' : Sys} {t : Nat} {th : Thr} (hi : Inv s) (ht : Tear s) (hget : s.thr[t]? = some th)
     (h : stepThr s t th = some s') : Inv s' := by
   have hown := hi.owner t th hget
   cases hpc : th.pc with
+  | kaWait =>
+    simp only [stepThr, hpc] at h
+    split at h
+    · simp at h; subst h
+      exact inv_outside hi hget rfl rfl rfl rfl rfl rfl rfl (by rw [hpc]; rfl) rfl rfl
+    · split at h
+      · cases h
+      · simp at h; subst h
+        exact inv_outside hi hget rfl rfl rfl rfl rfl rfl rfl (by rw [hpc]; rfl) rfl rfl
+  | await =>
+    simp only [stepThr, hpc] at h
+    split at h
+    · simp at h; subst h
+      refine inv_outside hi hget rfl rfl rfl rfl rfl rfl rfl (by rw [hpc]; rfl) ?_ ?_
+      · split <;> rfl
+      · split <;> rfl
+    · cases h
+  | stopSet =>
+    simp [stepThr, hpc] at h; subst h
+    refine inv_outside hi hget rfl rfl rfl rfl rfl rfl rfl (by rw [hpc]; rfl) ?_ ?_
+    · split <;> rfl
+    · split <;> rfl
+  | joinKa =>
+    simp only [stepThr, hpc] at h
+    split at h
+    · simp at h; subst h
+      exact inv_outside hi hget rfl rfl rfl rfl rfl rfl rfl (by rw [hpc]; rfl) rfl rfl
+    · cases h
+  | chkAct =>
+    simp [stepThr, hpc] at h; subst h
+    refine inv_outside hi hget rfl rfl rfl rfl rfl rfl rfl (by rw [hpc]; rfl) ?_ ?_
+    · split <;> rfl
+    · split <;> rfl
+  | actStore =>
+    simp [stepThr, hpc] at h; subst h
+    exact inv_outside hi hget rfl rfl rfl rfl rfl rfl rfl (by rw [hpc]; rfl) rfl rfl
+  | actLoad =>
+    have hact : s.activated = true := by
+      cases ha : s.activated with
+      | true => rfl
+      | false => have := ht.deact ha t th hget; rw [hpc] at this; cases this
+    simp [stepThr, hpc, hact] at h; subst h
+    rw [hpc] at hown; simp [inLock] at hown
+    have hh := hi.holder t th hget hown
+    simp [HolderInv, hpc] at hh
+    refine inv_local hi hget rfl rfl rfl rfl rfl rfl ?_ rfl ?_ ?_
+    · simp [inLock, hpc]
+    · intro _; simp [HolderInv, Sys.upd]; exact hh
+    · intro hl; exact absurd hown hl
   | idle =>
     simp [stepThr, hpc] at h; subst h
     rw [hpc] at hown; simp [inLock] at hown
@@ -56,13 +121,14 @@ theorem stepThr_inv {s s' : Sys} {t : Nat} {th : Thr} (hi : Inv s) (hget : s.thr
         exact ⟨_, get_set_self hget⟩
       · exact hi.exch
       · exact hi.incr
+      · exact hi.after
       · exact hi.ntx
       · exact hi.q
       · intro h; simp [Sys.upd] at h
       · intro t' b hb hl'
         simp [Sys.upd] at hl'
         subst hl'
-        have hb' : (s.thr.set t { th with pc := PC.ssLoad })[t]? = some b := hb
+        have hb' : (s.thr.set t { th with pc := PC.actLoad })[t]? = some b := hb
         rw [get_set_self hget] at hb'
         injection hb' with hb'
         subst hb'
@@ -151,13 +217,21 @@ theorem stepThr_inv {s s' : Sys} {t : Nat} {th : Thr} (hi : Inv s) (hget : s.thr
     have hh := hi.holder t th hget hown
     simp [HolderInv, hpc] at hh
     obtain ⟨h1, h2, h3, h4, h5⟩ := hh
-    refine inv_holder hi hget hown hown rfl ?_ rfl ?_ ?_ ?_ hi.q ?_ ?_
+    have hnc : (monOf s.wire).closed = false := by
+      cases hcl : (monOf s.wire).closed with
+      | false => rfl
+      | true =>
+        rcases ht.closed hcl _ _ hget with h | ⟨_, h⟩
+        · rw [hpc] at h; cases h
+        · rw [hpc] at h; cases h
+    refine inv_holder hi hget hown hown rfl ?_ rfl ?_ ?_ ?_ ?_ hi.q ?_ ?_
     · simp [inLock]
     · simp [Sys.upd, Mon.step, hi.exch, h1, hi.ntx]
     · simp only [Sys.upd, monOf_cons, Mon.step, hi.incr, Bool.true_and]
       cases hlast : (monOf s.wire).last with
       | none => rfl
       | some a => simp only []; rw [h5]; exact h3 a hlast
+    · simp [Sys.upd, Mon.step, hi.after, hnc]
     · simp [Sys.upd, Mon.step, hi.ntx]
     · intro t' n hs; simp [Sys.upd, hs]
     · simp [HolderInv, Sys.upd, Mon.step, h2, h4, h5]
@@ -167,10 +241,11 @@ theorem stepThr_inv {s s' : Sys} {t : Nat} {th : Thr} (hi : Inv s) (hget : s.thr
     simp [HolderInv, hpc] at hh
     obtain ⟨h1, h2, h3, h4, h5⟩ := hh
     simp [stepThr, hpc, hi.q, h2] at h; subst h
-    refine inv_holder hi hget hown hown rfl ?_ rfl ?_ ?_ ?_ rfl ?_ ?_
+    refine inv_holder hi hget hown hown rfl ?_ rfl ?_ ?_ ?_ ?_ rfl ?_ ?_
     · simp [inLock]
     · simp [Sys.upd, Mon.step, hi.exch, h1]
     · simp [Sys.upd, Mon.step, hi.incr]
+    · simp [Sys.upd, Mon.step, hi.after]
     · simp [Sys.upd, Mon.step, hi.ntx]
     · intro t' n hs; simp [Sys.upd, hs]
     · simp [HolderInv, Sys.upd, Mon.step, h4, h5]
@@ -188,7 +263,7 @@ theorem stepThr_inv {s s' : Sys} {t : Nat} {th : Thr} (hi : Inv s) (hget : s.thr
     constructor
     · intro t' b hb
       rcases get_set_cases hget hb with ⟨rfl, rfl⟩ | ⟨hne, hb⟩
-      · simp only [afterCall, Sys.upd]; split <;> simp [inLock]
+      · simp [afterCall, Sys.upd, inLock_nextPc]
       · have := hi.owner _ _ hb
         rw [hown] at this
         simp [Sys.upd, this]
@@ -196,6 +271,7 @@ theorem stepThr_inv {s s' : Sys} {t : Nat} {th : Thr} (hi : Inv s) (hget : s.thr
     · intro t' hl'; simp [Sys.upd] at hl'
     · exact hi.exch
     · exact hi.incr
+    · exact hi.after
     · exact hi.ntx
     · exact hi.q
     · intro _; exact ⟨h1, h2, h3, h4⟩
@@ -209,20 +285,22 @@ theorem stepThr_inv {s s' : Sys} {t : Nat} {th : Thr} (hi : Inv s) (hget : s.thr
       · exact hi.res _ _ hb x hx
   | done => simp [stepThr, hpc] at h
 
-theorem step_inv {s s' : Sys} {t : Nat} (hi : Inv s) (h : step s t = some s') : Inv s' := by
+theorem step_inv {s s' : Sys} {t : Nat} (hi : Inv s) (ht : Tear s) (h : step s t = some s') :
+    Inv s' ∧ Tear s' := by
   unfold step at h
   cases hget : s.thr[t]? with
   | none => simp [hget] at h
-  | some th => simp [hget] at h; exact stepThr_inv hi hget h
+  | some th => simp [hget] at h; exact ⟨stepThr_inv hi ht hget h, stepThr_tear ht hget h⟩
 
-theorem run_inv {s : Sys} (hi : Inv s) (sched : List Nat) : Inv (run s sched) := by
+theorem run_inv {s : Sys} (hi : Inv s) (ht : Tear s) (sched : List Nat) :
+    Inv (run s sched) ∧ Tear (run s sched) := by
   induction sched generalizing s with
-  | nil => exact hi
+  | nil => exact ⟨hi, ht⟩
   | cons t rest ih =>
     simp only [run, List.foldl_cons]
     cases hs : step s t with
-    | none => exact ih hi
-    | some s' => exact ih (step_inv hi hs)
+    | none => exact ih hi ht
+    | some s' => exact ih (step_inv hi ht hs).1 (step_inv hi ht hs).2
 
 theorem init_inv (c : Cfg) (hs : c.sessSeq ≤ 0xffffffff) : Inv (init c) := by
   constructor
